@@ -89,7 +89,7 @@ func genLabels(r *rng) map[string]string {
 
 func genProfiles(r *rng) []string {
 	var out []string
-	for _, p := range []string{"prof-1", "prof-2", "prof-3", "prof-missing"} {
+	for _, p := range []string{"prof-1", "prof-2", "prof-3", "prof-missing", "kns.ns1"} {
 		if r.chance(35) {
 			out = append(out, p)
 		}
@@ -340,6 +340,9 @@ func buildNode(name string, idx int) func(uint64) any {
 		if r.chance(30) {
 			n.Labels = map[string]string{"rack": pick(r, []string{"r1", "r2"})}
 		}
+		if n.Spec.BGP != nil && r.chance(25) {
+			n.Spec.BGP.IPv6Address = fmt.Sprintf("dead:beef::%d/64", idx+1)
+		}
 		return n
 	}
 }
@@ -354,6 +357,43 @@ func buildTunnelMAC(idx int) func(uint64) any {
 	return func(v uint64) any {
 		return fmt.Sprintf("66:74:c5:72:3f:%02x", idx*16+int(v%2))
 	}
+}
+
+func buildSpecialProfile(name, prefix string) func(uint64) any {
+	return func(v uint64) any {
+		r := &rng{s: v*613 + 29}
+		l := map[string]string{}
+		if r.chance(70) {
+			l[prefix+"team"] = pick(r, []string{"red", "blue"})
+		}
+		if r.chance(40) {
+			l[prefix+"a"] = "a"
+		}
+		if r.chance(30) {
+			l["a"] = "a" // an unprefixed label is passed on as it is and also inherited by the endpoints
+		}
+		return &v3.Profile{
+			TypeMeta:   metav1.TypeMeta{Kind: v3.KindProfile, APIVersion: v3.GroupVersionCurrent},
+			ObjectMeta: metav1.ObjectMeta{Name: name},
+			Spec:       v3.ProfileSpec{LabelsToApply: l},
+		}
+	}
+}
+
+func buildWireguard(v uint64) any {
+	r := &rng{s: v*97 + 41}
+	w := &model.Wireguard{}
+	if r.chance(75) {
+		w.PublicKey = pick(r, []string{"jlkVyQYooZYzI2wFfNhSZez5eWh44yfq1wKVjLvSXgY=", "2g8sqKY+9U6WUUDU9UgOBEtN4IDJtQ6hTuTaMDBFmiI="})
+		ip := calinet.MustParseIP(pick(r, []string{"192.168.100.1", "192.168.100.2"}))
+		w.InterfaceIPv4Addr = &ip
+	}
+	if r.chance(30) {
+		w.PublicKeyV6 = "vP2+rAqYjSZ3LrGzYRrRBHQX0ZQmRnbuYIjY1CYKyjw="
+		ip := calinet.MustParseIP("fd00::1")
+		w.InterfaceIPv6Addr = &ip
+	}
+	return w
 }
 
 func universe() []*ukey {
@@ -392,6 +432,10 @@ func universe() []*ukey {
 		add("vtep-"+h, "hcfg", model.HostConfigKey{Hostname: h, Name: "IPv4VXLANTunnelAddr"}, 2, buildTunnelAddr(i))
 	}
 	add("vmac-"+hosts[1], "hcfg", model.HostConfigKey{Hostname: hosts[1], Name: "VXLANTunnelMACAddr"}, 2, buildTunnelMAC(1))
+	// profiles with dataplane significance (ProfileDecoder): a Kubernetes namespace and a service account
+	add("Lkns.ns1", "plabel", model.ResourceKey{Kind: v3.KindProfile, Name: "kns.ns1"}, 8, buildSpecialProfile("kns.ns1", "pcns."))
+	add("Lksa.ns1.sa1", "plabel", model.ResourceKey{Kind: v3.KindProfile, Name: "ksa.ns1.sa1"}, 8, buildSpecialProfile("ksa.ns1.sa1", "pcsa."))
+	add("wg-"+hosts[1], "wg", model.WireguardKey{NodeName: hosts[1]}, 8, buildWireguard)
 	return u
 }
 
